@@ -340,6 +340,11 @@ func vfC06DrawTable(t *rapid.T) (tab []vfC06Entry, pool, heads []string) {
 			g.tab[i].Answer = strings.ToUpper(a[:1]) + a[1:]
 			vfC06.Class("table:cname_answer_with_upper_case")
 		}
+		if rapid.IntRange(0, 9).Draw(t, g.lbl("dot_answer")) == 0 {
+			// the same name in its fully qualified spelling
+			g.tab[i].Answer += "."
+			vfC06.Class("table:cname_answer_with_trailing_dot")
+		}
 	}
 
 	return g.tab, g.pool, g.heads
